@@ -12,7 +12,7 @@ from fractions import Fraction
 from multiprocessing import Pool
 
 from .. import tlc, upj, simobs
-from ..common import MachineryError, time_limit, ImplTimeout
+from ..common import MachineryError, time_limit, ImplTimeout, call_limited
 from ..gen import Gen, ground_actions
 
 CFG = "SPECIFICATION Spec\nINVARIANT Judge\n"
@@ -103,13 +103,11 @@ def worker(job):
     for pl in plans:
         r = {"steps": pl, "status": "", "metric": upj.NONE, "reason": ""}
         try:
-            with time_limit(20):
-                ais = []
-                for g in pl:
-                    a = problem.action(g["a"])
-                    ais.append(ActionInstance(a, simobs._params(problem, a, g["args"])))
-                v = SequentialPlanValidator()
-                res = v.validate(problem, SequentialPlan(ais))
+            ais = []
+            for g in pl:
+                a = problem.action(g["a"])
+                ais.append(ActionInstance(a, simobs._params(problem, a, g["args"])))
+            res = call_limited(lambda: SequentialPlanValidator().validate(problem, SequentialPlan(ais)), 20)
             r["status"] = res.status.name
             r["reason"] = res.reason.name if res.reason is not None else ""
             if res.metric_evaluations:
